@@ -57,6 +57,14 @@ class Describer:
         self.max_depth = max_depth
         self.memo = {}
         self.transparent = True
+        # locals whose address is taken mutably: their fields may change behind any aggregate literal
+        self.mut_borrowed = set()
+        for blk in body.blocks:
+            if blk['c']:
+                continue
+            for st in blk['s']:
+                if st[0] == '=' and st[2][0] == 'ref' and st[2][1] and not any(e == '*' for e in st[2][2][1]):
+                    self.mut_borrowed.add(st[2][2][0])
 
     # ---- reaching definitions -------------------------------------------
     def reaching_defs(self, local, bb, idx, proj=None):
@@ -201,6 +209,9 @@ class Describer:
             fd = self._partial(local, proj, bb, idx, depth)
             if fd is not None:
                 return fd
+        if proj and local in self.mut_borrowed and proj[0] != '*' and isinstance(proj[0], list) and proj[0][0] == 'f' and self.b.locals[local][1]:
+            # field of a named local that is also mutated through `&mut`: keep it opaque
+            return self._apply_proj(('local', local, self.b.locals[local][1]), proj)
         base = self._base_local(local, bb, idx, depth)
         return self._apply_proj(base, proj)
 
